@@ -371,68 +371,106 @@ def bl6(ctx, R):
             "serialised bytes are rewritten with bytes.replace")
 
 
-@rule("PO1", "parents are declared first and the written-state is updated only after the segment was written", floor=7)
+def _key_reaches_ordering(prog, fi, key_expr):
+    """sort key reaches writer._path_ordering_key (directly, through a lambda, or through a helper)"""
+    if key_expr is None:
+        return False
+    if dotted(key_expr) == "_path_ordering_key":
+        return True
+    if isinstance(key_expr, ast.Lambda):
+        return any(isinstance(c, ast.Call) and call_name(c) == "_path_ordering_key" for c in ast.walk(key_expr.body))
+    r = prog.resolve_expr(fi.module, key_expr) if isinstance(key_expr, (ast.Name, ast.Attribute)) else None
+    if r and r[0] == "func":
+        return any(isinstance(c, ast.Call) and call_name(c) == "_path_ordering_key" for c in walk_body(r[1].node))
+    return False
+
+
+@rule("PO1", "parents are declared first and the written-state is updated only after the segment was written", floor=6)
 def po1(ctx, R):
+    from .region import region, nodes_reaching, cone
+    from .absval import eval_simple_function
     prog = ctx.prog
     ws = prog.func("writer.TdmsWriter.write_segment")
     cfg = ctx.cfg(ws)
-    lst = "path_object_pairs"
-    sorts = cfg.where(lambda n: any(call_name(c) == lst + ".sort" for c in node_calls(n)))
+    reg = region(ctx, ws)
+    # (1) the object list handed to the segment is sorted parents-first
+    sorts = []
+    for f in reg:
+        for c in walk_body(f.node):
+            if isinstance(c, ast.Call):
+                key = next((k.value for k in c.keywords if k.arg == "key"), None)
+                if (isinstance(c.func, ast.Attribute) and c.func.attr == "sort") or call_name(c) == "sorted":
+                    if _key_reaches_ordering(prog, f, key):
+                        sorts.append((f, c))
     if not sorts:
-        srt = cfg.where(lambda n: any(call_name(c) == "sorted" and c.args and dotted(c.args[0]) == lst for c in node_calls(n)))
-        if not srt:
-            R.violation("writer.TdmsWriter.write_segment::objects sorted parents-first", ws.where(), "the object list is no longer sorted with "
-                        "root first, then groups, before the segment is built: a channel can precede its group")
-            sorts = []
-        else:
-            sorts = srt
-    for s in sorts:
-        after = cfg.reach([s], follow_exc=False)
-        late = [n for n in after if n is not s and any(call_name(c) in (lst + ".append", lst + ".extend", lst + ".insert") for c in node_calls(n))]
-        R.check(not late, "writer.TdmsWriter.write_segment::sort is the last change of the list", ws.where(s.ast),
-                "no object is added after the parents-first sort", "objects are added to the list after it was sorted")
-        key_ok = any(k.arg == "key" and "_path_ordering_key" in unparse(k.value) for c in node_calls(s) for k in c.keywords)
-        R.check(key_ok, "writer.TdmsWriter.write_segment::sort key", ws.where(s.ast), "sorted by _path_ordering_key", "sort does not use _path_ordering_key")
-    # objects handed to TdmsSegment derive from the sorted list
-    objs = [n for n in walk_body(ws.node) if isinstance(n, ast.Assign) and any(isinstance(t, ast.Name) and t.id == "objects" for t in n.targets)]
-    R.check(any(lst in unparse(n.value) for n in objs), "writer.TdmsWriter.write_segment::objects from sorted list", ws.where(),
-            "segment objects are taken from the sorted list", "the objects written are not taken from the sorted list")
+        R.violation("writer.TdmsWriter.write_segment::objects sorted parents-first", ws.where(), "no sort by _path_ordering_key on the way to the segment: the "
+                    "object list is no longer ordered root first, then groups, so a channel can precede its group")
+    else:
+        f, c = sorts[0]
+        R.ok("writer.TdmsWriter.write_segment::objects sorted parents-first", f.where(c), "sorted with a key that reaches _path_ordering_key")
+        if f is ws and isinstance(c.func, ast.Attribute) and c.func.attr == "sort":
+            lst = dotted(c.func.value)
+            sn = cfg.where(lambda n: any(x is c for x in node_calls(n)))
+            late = []
+            for s in sn:
+                after = cfg.reach([s], follow_exc=False)
+                late += [n for n in after if n is not s and any(call_name(x) in (lst + ".append", lst + ".extend", lst + ".insert") for x in node_calls(n))]
+            R.check(not late, "writer.TdmsWriter.write_segment::sort is the last change of the list", ws.where(c),
+                    "no object is added after the parents-first sort", "objects are added to the list after it was sorted")
     pk = prog.func("writer._path_ordering_key")
-    ranks = {}
-    for n in walk_body(pk.node):
-        if isinstance(n, ast.If):
-            r = [s for s in n.body if isinstance(s, ast.Return)]
-            if r:
-                ranks[unparse(n.test)] = prog.try_fold(r[0].value, pk.module)
     p = pk.params[0]
-    good = ranks.get(p + ".is_root") is not None and ranks.get(p + ".is_root") < ranks.get(p + ".is_group", -1) < ranks.get(p + ".is_channel", -1)
-    R.check(good, "writer._path_ordering_key::root < group < channel", pk.where(), "ranks %s" % ranks, "ordering key is not strictly increasing root < group < channel: %s" % ranks)
-    # add_root / groups_to_add
-    ar = [unparse(d) for d in _defs(ws, "add_root")]
-    R.check(bool(ar) and "self._root_written" in ar[0] and "is_root" in ar[0] and "not" in ar[0], "writer.TdmsWriter.write_segment::add_root", ws.where(),
-            "root added iff not yet written and not given", "add_root = %s" % ar)
-    ga = _defs(ws, "groups_to_add")
-    txt = unparse(ga[0]) if ga else ""
-    R.check("groups_required - groups_included - self._groups_written" in txt, "writer.TdmsWriter.write_segment::groups_to_add", ws.where(),
-            "required - included - already written", "groups_to_add = %s" % txt)
-    gr = [unparse(d) for d in _defs(ws, "groups_required")]
-    R.check(bool(gr) and "is_channel" in gr[0] and ".group" in gr[0], "writer.TdmsWriter.write_segment::groups_required", ws.where(),
-            "groups of all channels in the segment", "groups_required = %s" % gr)
-    # written-state updated only after the writes
+    ranks = {}
+    for kind, facts in (("root", {p + ".is_root": True, p + ".is_group": False, p + ".is_channel": False}),
+                        ("group", {p + ".is_root": False, p + ".is_group": True, p + ".is_channel": False}),
+                        ("channel", {p + ".is_root": False, p + ".is_group": False, p + ".is_channel": True})):
+        ranks[kind] = eval_simple_function(prog, pk, facts)
+    single = all(len(v) == 1 and isinstance(next(iter(v)), (int, float)) for v in ranks.values())
+    if not single:
+        R.undecided("writer._path_ordering_key::root < group < channel", pk.where(), "ranks not constant: %s" % ranks)
+    else:
+        r_, g_, c_ = (next(iter(ranks[k])) for k in ("root", "group", "channel"))
+        R.check(r_ < g_ < c_, "writer._path_ordering_key::root < group < channel", pk.where(), "ranks root=%s group=%s channel=%s" % (r_, g_, c_),
+                "ordering key is not strictly increasing root < group < channel (root=%s, group=%s, channel=%s)" % (r_, g_, c_))
+    # (2) written-state is updated only after the writes
     stores = cfg.where(lambda n: n.kind == "stmt" and (
         (isinstance(n.ast, ast.Assign) and any(dotted(t) == "self._root_written" for t in n.ast.targets)) or
+        (isinstance(n.ast, ast.AugAssign) and dotted(n.ast.target) == "self._groups_written") or
         any(call_name(c) in ("self._groups_written.update", "self._groups_written.add") for c in node_calls(n))))
     if not stores:
         raise AnchorMissing("writer.TdmsWriter.write_segment: updates of _root_written/_groups_written")
-    wr = lambda n: any(call_name(c) == "segment.write" and c.args and unparse(c.args[0]) == "self._file" for c in node_calls(n))
-    idx_test = lambda n: n.kind == "test" and "self._index_file" in unparse(n.ast)
+    writes = nodes_reaching(ctx, ws, cfg, {"writer.TdmsSegment.write"})
+    if not writes:
+        raise AnchorMissing("writer.TdmsWriter.write_segment: calls that reach TdmsSegment.write")
     for s in stores:
-        ok1, _ = cfg.dominated_by(s, wr)
-        ok2, _ = cfg.dominated_by(s, idx_test)
-        R.check(ok1 and ok2, "writer.TdmsWriter.write_segment::`%s` after the writes" % unparse(s.ast)[:50], ws.where(s.ast),
+        dom = any(cfg.dominated_by(s, lambda n, w=w: n is w)[0] for w in writes)
+        after = cfg.reach([s], follow_exc=False)
+        later_write = [w for w in writes if w in after and w is not s]
+        R.check(dom and not later_write, "writer.TdmsWriter.write_segment::`%s` after the writes" % unparse(s.ast)[:50], ws.where(s.ast),
                 "state is updated after data and index segments were written",
                 "the record of which parents were already declared is updated before the segment is written: if this call fails (unsupported "
                 "property value, duplicate path) the next segment is written without root/group objects")
+    # (3) implicit root / groups depend on what was already written
+    roots = [c for c in walk_body(ws.node) if isinstance(c, ast.Call) and dotted(c.func) == "RootObject"]
+    groups = [c for c in walk_body(ws.node) if isinstance(c, ast.Call) and dotted(c.func) == "GroupObject"]
+    if not roots or not groups:
+        R.undecided("writer.TdmsWriter.write_segment::implicit parents", ws.where(), "RootObject()/GroupObject() are not created in write_segment itself")
+    else:
+        from .region import _enclosing_tests
+        rt = _enclosing_tests(ws, roots[0])
+        rc = set()
+        for t in rt:
+            rc |= cone(ctx, ws, t)
+        if not rt:
+            R.violation("writer.TdmsWriter.write_segment::root added only when missing", ws.where(roots[0]), "a root object is added unconditionally")
+        else:
+            R.check("self._root_written" in rc and ".is_root" in rc, "writer.TdmsWriter.write_segment::root added only when missing", ws.where(roots[0]),
+                    "depends on _root_written and on whether a root object was given",
+                    "the implicit root object does not depend on both self._root_written and the presence of a root object in the segment (depends on %s)" % sorted(x for x in rc if "root" in x))
+        g = groups[0]
+        gc = cone(ctx, ws, g.args[0]) if g.args else set()
+        R.check("self._groups_written" in gc and (".is_channel" in gc or ".is_group" in gc), "writer.TdmsWriter.write_segment::groups added only when missing", ws.where(g),
+                "implicit groups depend on the channels' groups, the groups given and _groups_written",
+                "implicit group objects do not depend on self._groups_written and on the kinds of the objects in the segment")
 
 
 @rule("WT1", "every written segment restates the full object list and sets kTocNewObjList", floor=2)
